@@ -47,7 +47,7 @@ Inductive ares := RInstalled | RDeferred | RFailed.
 Record perform_answer := { pa_progress : list N; pa_results : list ares }.
 
 (* ---------- stimuli at blocking points ---------- *)
-Inductive stimulus := Fire (i : nat) | Control (src : isource).
+Inductive stimulus := Fire (i : nat) | Control (src : isource) | DropHandles.
 
 (* ---------- observable actions ---------- *)
 Inductive state := Idle | CheckingForUpdates (s : isource) | ErrorCheckingForUpdate | NoUpdateAvailable
@@ -99,7 +99,19 @@ Record wire := { w_uri : bytes; w_headers : list (bytes * bytes); w_body : bytes
 Inductive action :=
 | AEvent (e : sm_event) | APolicy (q : pquery) (a : panswer) | AHttp (w : wire) (o : http_outcome)
 | AInstaller (c : icall) (a : ianswer) | AClock (c : ctime)
-| ATimer (w : wait) | AStore (op : store_op) (ok : bool) | AMetric (m : metric) | AReply (id : N) (r : reply).
+| ATimer (w : wait) | AStore (op : store_op) (ok : bool) | AMetric (m : metric)
+| ARequest (id : N) (src : isource)      (* a start-update-check request is sent through a control handle *)
+| AReply (id : N) (r : reply).
+
+(* ---------- control requests that arrive between polls ---------- *)
+Record ctlst := {
+  c_inject : list (N * isource);   (* (k, src): a request is sent right after the k-th event has been delivered *)
+  c_evn : N;                        (* events delivered so far *)
+  c_inq : list (N * isource);       (* requests sent but not yet seen by a select (id, source), oldest first *)
+  c_incheck : bool;                 (* inside the select loop that surrounds an update check *)
+  c_upg : bool                      (* an on-demand request arrived during the check *) }.
+Definition ctl0 (inj : list (N * isource)) : ctlst :=
+  {| c_inject := inj; c_evn := 0%N; c_inq := []; c_incheck := false; c_upg := false |}.
 
 (* ---------- the environment ---------- *)
 Record env := {
@@ -112,6 +124,7 @@ Record env := {
   q_reboot : list bool;
   q_backoff : list Z;            (* rand::random::<u64>() draws used by randomize() *)
   e_stim : list stimulus; e_ctl : N;     (* next control-request id *)
+  e_cs : ctlst;
   e_draws : N;                   (* GUID draws so far *)
   e_guids : list (N * N);        (* draw -> canonical index, assigned at first appearance on the wire *)
   e_nonces : N;                  (* CUP nonces used so far (each request draws a fresh one) *)
@@ -132,7 +145,7 @@ Definition upd_trace (e : env) (t : list action) : env :=
      q_next_time := q_next_time e; q_allowed := q_allowed e; q_can_start := q_can_start e;
      q_reboot_needed := q_reboot_needed e; q_reboot_allowed := q_reboot_allowed e;
      q_http := q_http e; q_plan := q_plan e; q_perform := q_perform e; q_reboot := q_reboot e;
-     q_backoff := q_backoff e; e_stim := e_stim e; e_ctl := e_ctl e;
+     q_backoff := q_backoff e; e_stim := e_stim e; e_ctl := e_ctl e; e_cs := e_cs e;
      e_draws := e_draws e; e_guids := e_guids e; e_nonces := e_nonces e; e_trace := t |}.
 
 Definition emit (a : action) : M unit := fun e => (Some tt, upd_trace e (a :: e_trace e)).
@@ -146,7 +159,7 @@ Definition read_clock : M ctime := fun e =>
           q_next_time := q_next_time e; q_allowed := q_allowed e; q_can_start := q_can_start e;
           q_reboot_needed := q_reboot_needed e; q_reboot_allowed := q_reboot_allowed e;
           q_http := q_http e; q_plan := q_plan e; q_perform := q_perform e; q_reboot := q_reboot e;
-          q_backoff := q_backoff e; e_stim := e_stim e; e_ctl := e_ctl e;
+          q_backoff := q_backoff e; e_stim := e_stim e; e_ctl := e_ctl e; e_cs := e_cs e;
           e_draws := e_draws e; e_guids := e_guids e; e_nonces := e_nonces e; e_trace := e_trace e |})
   | [] => (Some {| wall := fst (e_last_clock e); mono := snd (e_last_clock e) |}, e)
   end.
@@ -158,7 +171,7 @@ Definition set_queues (e : env) nt al cs rn ra ht pl pf rb bo : env :=
   {| e_clock := e_clock e; e_last_clock := e_last_clock e; e_store := e_store e; e_faults := e_faults e;
      q_next_time := nt; q_allowed := al; q_can_start := cs; q_reboot_needed := rn; q_reboot_allowed := ra;
      q_http := ht; q_plan := pl; q_perform := pf; q_reboot := rb; q_backoff := bo;
-     e_stim := e_stim e; e_ctl := e_ctl e;
+     e_stim := e_stim e; e_ctl := e_ctl e; e_cs := e_cs e;
      e_draws := e_draws e; e_guids := e_guids e; e_nonces := e_nonces e; e_trace := e_trace e |}.
 
 Definition default_timing : timing := {| t_time := PMono 0; t_min := None |}.
@@ -210,7 +223,7 @@ Definition set_stim (e : env) (s : list stimulus) (c : N) : env :=
      q_next_time := q_next_time e; q_allowed := q_allowed e; q_can_start := q_can_start e;
      q_reboot_needed := q_reboot_needed e; q_reboot_allowed := q_reboot_allowed e;
      q_http := q_http e; q_plan := q_plan e; q_perform := q_perform e; q_reboot := q_reboot e;
-     q_backoff := q_backoff e; e_stim := s; e_ctl := c;
+     q_backoff := q_backoff e; e_stim := s; e_ctl := c; e_cs := e_cs e;
      e_draws := e_draws e; e_guids := e_guids e; e_nonces := e_nonces e; e_trace := e_trace e |}.
 
 Definition pop_stim : M stimulus := fun e =>
@@ -220,13 +233,70 @@ Definition pop_stim : M stimulus := fun e =>
   end.
 Definition next_ctl : M N := fun e => (Some (e_ctl e), set_stim e (e_stim e) (e_ctl e + 1)%N).
 
+(* --- control requests arriving between polls --- *)
+Definition set_cs (e : env) (c : ctlst) (ctl : N) : env :=
+  {| e_clock := e_clock e; e_last_clock := e_last_clock e; e_store := e_store e; e_faults := e_faults e;
+     q_next_time := q_next_time e; q_allowed := q_allowed e; q_can_start := q_can_start e;
+     q_reboot_needed := q_reboot_needed e; q_reboot_allowed := q_reboot_allowed e;
+     q_http := q_http e; q_plan := q_plan e; q_perform := q_perform e; q_reboot := q_reboot e;
+     q_backoff := q_backoff e; e_stim := e_stim e; e_ctl := ctl; e_cs := c;
+     e_draws := e_draws e; e_guids := e_guids e; e_nonces := e_nonces e; e_trace := e_trace e |}.
+
+Definition is_ondemand (s : isource) : bool := match s with OnDemand => true | ScheduledTask => false end.
+
+(* after an event has been delivered to the consumer, the next scripted request that is due (index <= events
+   delivered) is sent through a handle — except right after the check's result, where the real select's branch
+   order is random.
+   During a check it is seen by the select around the check in the very next poll (reply AlreadyRunning, an
+   on-demand request upgrades the check's options); otherwise it waits for the next select. *)
+Definition after_event (is_result : bool) : M unit := fun e =>
+  let cs := e_cs e in
+  let k := c_evn cs in
+  match c_inject cs with
+  | (k0, src) :: rest =>
+      if (k0 <=? k)%N && negb is_result then
+        let id := e_ctl e in
+        if c_incheck cs then
+          (Some tt, upd_trace (set_cs e {| c_inject := rest; c_evn := (k + 1)%N; c_inq := c_inq cs; c_incheck := true;
+                                           c_upg := c_upg cs || is_ondemand src |} (id + 1)%N)
+                              (AReply id AlreadyRunning :: ARequest id src :: e_trace e))
+        else
+          (Some tt, upd_trace (set_cs e {| c_inject := rest; c_evn := (k + 1)%N; c_inq := c_inq cs ++ [(id, src)]; c_incheck := false;
+                                           c_upg := c_upg cs |} (id + 1)%N)
+                              (ARequest id src :: e_trace e))
+      else (Some tt, set_cs e {| c_inject := c_inject cs; c_evn := (k + 1)%N; c_inq := c_inq cs; c_incheck := c_incheck cs; c_upg := c_upg cs |} (e_ctl e))
+  | [] => (Some tt, set_cs e {| c_inject := []; c_evn := (k + 1)%N; c_inq := c_inq cs; c_incheck := c_incheck cs; c_upg := c_upg cs |} (e_ctl e))
+  end.
+
+Definition pop_queued : M (option (N * isource)) := fun e =>
+  let cs := e_cs e in
+  match c_inq cs with
+  | [] => (Some None, e)
+  | x :: r => (Some (Some x), set_cs e {| c_inject := c_inject cs; c_evn := c_evn cs; c_inq := r; c_incheck := c_incheck cs; c_upg := c_upg cs |} (e_ctl e))
+  end.
+Definition set_incheck (b : bool) : M unit := fun e =>
+  let cs := e_cs e in
+  (Some tt, set_cs e {| c_inject := c_inject cs; c_evn := c_evn cs; c_inq := c_inq cs; c_incheck := b; c_upg := c_upg cs |} (e_ctl e)).
+(* entering the select loop around a check: requests already sent are all answered AlreadyRunning in that first poll *)
+Definition enter_check : M unit := fun e =>
+  let cs := e_cs e in
+  let replies := map (fun x => AReply (fst x) AlreadyRunning) (c_inq cs) in
+  (Some tt, upd_trace (set_cs e {| c_inject := c_inject cs; c_evn := c_evn cs; c_inq := []; c_incheck := true;
+                                   c_upg := c_upg cs || existsb (fun x => is_ondemand (snd x)) (c_inq cs) |} (e_ctl e))
+                      (rev replies ++ e_trace e)).
+
+(* read and reset the "upgraded to on-demand during the check" flag *)
+Definition take_upgrade : M bool := fun e =>
+  let cs := e_cs e in
+  (Some (c_upg cs), set_cs e {| c_inject := c_inject cs; c_evn := c_evn cs; c_inq := c_inq cs; c_incheck := c_incheck cs; c_upg := false |} (e_ctl e)).
+
 (* --- GUIDs and nonces --- *)
 Definition set_ids (e : env) (d : N) (g : list (N * N)) (n : N) : env :=
   {| e_clock := e_clock e; e_last_clock := e_last_clock e; e_store := e_store e; e_faults := e_faults e;
      q_next_time := q_next_time e; q_allowed := q_allowed e; q_can_start := q_can_start e;
      q_reboot_needed := q_reboot_needed e; q_reboot_allowed := q_reboot_allowed e;
      q_http := q_http e; q_plan := q_plan e; q_perform := q_perform e; q_reboot := q_reboot e;
-     q_backoff := q_backoff e; e_stim := e_stim e; e_ctl := e_ctl e;
+     q_backoff := q_backoff e; e_stim := e_stim e; e_ctl := e_ctl e; e_cs := e_cs e;
      e_draws := d; e_guids := g; e_nonces := n; e_trace := e_trace e |}.
 
 Definition fresh_guid : M N := fun e => (Some (e_draws e), set_ids e (e_draws e + 1)%N (e_guids e) (e_nonces e)).
@@ -247,7 +317,7 @@ Definition set_store (e : env) (s : storage) : env :=
      q_next_time := q_next_time e; q_allowed := q_allowed e; q_can_start := q_can_start e;
      q_reboot_needed := q_reboot_needed e; q_reboot_allowed := q_reboot_allowed e;
      q_http := q_http e; q_plan := q_plan e; q_perform := q_perform e; q_reboot := q_reboot e;
-     q_backoff := q_backoff e; e_stim := e_stim e; e_ctl := e_ctl e;
+     q_backoff := q_backoff e; e_stim := e_stim e; e_ctl := e_ctl e; e_cs := e_cs e;
      e_draws := e_draws e; e_guids := e_guids e; e_nonces := e_nonces e; e_trace := e_trace e |}.
 
 Definition faulty (e : env) : bool := existsb (N.eqb (opn (e_store e))) (e_faults e).
